@@ -38,7 +38,7 @@ def updateProgOld : List Stmt :=
 def convertProg : List Stmt :=
   [ .log "debug", .unpickle, .dumpsObj, .inspectDump,
     .ite .untrustedEmpty [.log "info"] [.log "warning"],
-    .log "debug", .writeOutput ]
+    .writeOutput, .log "debug" ]
 
 /-- `skops.cli._convert.main` -/
 def convertMainProg : List Stmt := [ .ite .outputNone [.defaultOutput] [] ]
